@@ -255,6 +255,18 @@ pub fn from_f32_all(r: &mut Rec, f: f32) {
         g.i[2] = b.unwrap_or_default();
         Ret::none().some(some)
     });
+    r.op("from_float", "U_to_biguint_f32", &[], &[u(2)], &format!("\"ty\":\"U\",{}", ex), |g| {
+        let b = f.to_biguint();
+        let some = b.is_some();
+        g.u[2] = b.unwrap_or_default();
+        Ret::none().some(some)
+    });
+    r.op("from_float", "I_to_bigint_f32", &[], &[i(2)], &format!("\"ty\":\"I\",{}", ex), |g| {
+        let b = f.to_bigint();
+        let some = b.is_some();
+        g.i[2] = b.unwrap_or_default();
+        Ret::none().some(some)
+    });
 }
 
 fn big_case(r: &mut Rec, label: &str, v: &BigUint, ints: bool) {
